@@ -42,6 +42,10 @@ def run(check: Check, repo: Repo, tier: str) -> None:
     G.zip_filter(check, [repo.mod(mn) for mn in MODS] + [repo.mod("utilities.find_schema_changes")])
     G.arg_name_match(check, repo, funcs)
     G.param_readonly(check, funcs)
+    D.lazy_thunks(check, repo)
+    from rules import language_rules as L
+
+    L.optional_truthiness(check, repo, ["type.definition", "type.directives", "type.schema"], str_attrs=("description", "deprecation_reason", "specified_by_url"))
     G.independent_keys(check, funcs)
     G.kwargs_complete(check, repo, [repo.mod(mn) for mn in MODS] + [repo.mod("type.definition"), repo.mod("type.directives"), repo.mod("type.schema")])
     check.rule("DISPATCH-EXH", "every member of a closed class family has a handling arm in the dispatch")
